@@ -23,6 +23,10 @@ fn main() {
         cases.push(make_case(&[3, 5, 2], true, vec![ReadExact(2), Seek(1, 2), ReadToEnd]));
         cases.push(make_case(&[3, 5, 2], true, vec![ReadToEnd, Seek(0, 1), ReadExact(1), Seek(2, 0), ReadToEnd]));
         cases.push(make_case(&[3, 0, 4], true, vec![ReadExact(1), Seek(1, 0), ReadExact(2), ReadToEnd]));
+        // seek to the end-of-stream position (file length) and to the EOF marker block
+        cases.push(make_case(&[3, 5, 2], true, vec![ReadExact(2), Seek(4, 0), Read(4), Seek(1, 1), ReadExact(2)]));
+        cases.push(make_case(&[3, 5], false, vec![ReadToEnd, Seek(2, 0), Read(4), Seek(0, 2), ReadToEnd]));
+        cases.push(make_case(&[3, 5, 2], true, vec![ReadExact(2), Seek(3, 0), Read(4)]));
         let workers = [2usize, 1, 3];
         let choose = [PollMode::Choose];
         let uniform = [PollMode::OneByte, PollMode::PendingEvery, PollMode::Irregular, PollMode::Ready];
